@@ -22,7 +22,11 @@ def worker(configs):
     area = gpd.GeoDataFrame(geometry=[box(-100, -100, 100, 100)])
     out = []
     for cfg in configs:
-        tr = gpd.GeoDataFrame(geometry=[LineString(s) for s in cfg])
+        # index labels as frames have them after a plain pd.concat of several files: default / offset / ALL ROWS UNDER ONE LABEL (chosen from the coordinates, so a
+        # replay sees the same frame); a defect is a property of the geometries, never of the labels
+        mode = int(sum(x * 7 + y * 13 for seg in cfg for x, y in seg)) % 3
+        index = [list(range(len(cfg))), [10 + 3 * i for i in range(len(cfg))], [7] * len(cfg)][mode]
+        tr = gpd.GeoDataFrame(geometry=[LineString(s) for s in cfg], index=index)
         try:
             v = Validation(tr, area, "x", True, SNAP_THRESHOLD=0.001).run_validation()
             out.append([sorted(set(e) - IGNORED) for e in v["VALIDATION_ERRORS"]])
@@ -68,7 +72,7 @@ def evaluate(ctx, configs, res, stream):
 
 
 def s02_lattice_pairs(ctx):
-    res = StreamResult("S02-lattice-pairs", rule="ALL 7140 pairs of straight traces with end points on the 4x4 integer lattice (exhaustive); verdict per trace: "
+    res = StreamResult("S02-lattice-pairs", rule="ALL 7140 pairs of straight traces with end points on the 4x4 integer lattice (exhaustive; index labels default / offset / all rows under ONE label, a third each); verdict per trace: "
                        "error iff in a defect, documented string included; non-trivial = configuration with a defect")
     evaluate(ctx, list(itertools.combinations(SEGS, 2)), res, "S02-lattice-pairs")
     res.samples = [{"traces": [list(SEGS[0]), list(SEGS[17])]}]
